@@ -262,3 +262,110 @@ example (m : Str) : m ∈ ["GET".toList, "POST".toList] ↔ Spec.routable E0 (Sp
     (by decide) put rfl (by decide) m
 
 end Restful.C17Witness
+
+/-! ### non-vacuity (audit): the remaining theorems with all their hypotheses, on a table with two
+    (not nested) services, one of whose routes carries an If-condition that holds for the request -/
+namespace Restful.C17Audit
+open Restful.Props Restful.C17Witness
+
+/-- `/r` with GET `/x/{id}`, POST `/x/{id}` (If-condition 0), DELETE `/y`; `/s` with PUT `/x/{id}` -/
+def tbl2 (k : RouterKind) : Config :=
+  { router := k, services := [
+      { id := 0, root := "/r".toList,
+        routes := [rt 0 "GET" "/x/{id}", { rt 1 "POST" "/x/{id}" with conds := [0] }, rt 2 "DELETE" "/y"] },
+      { id := 1, root := "/s".toList, routes := [rt 3 "PUT" "/x/{id}"] }] }
+
+def put2 : Req := { method := "PUT".toList, path := "/r/x/7".toList, conds := [true] }
+def opt2 : Options.OptReq := { method := Cors.sOPTIONS, path := "/r/x/7".toList, origin := "http://o".toList, acrh := "X-A".toList }
+def out2 : Options.Out :=
+  ⟨[("Allow".toList, "GET,POST".toList), (Cors.hAllowOrigin, "http://o".toList), (Cors.hAllowHeaders, "X-A".toList),
+    (Cors.hAllowMethods, "GET,POST".toList)], false⟩
+
+/-- what `computeAllowedMethods` lists at `/r/x/7` -/
+def ms2 : List Str := ["GET".toList, "POST".toList]
+
+/-- the hypotheses of the theorems below, all at once; PUT is answered 405 here and routed at `/s/x/7` -/
+example :
+    Spec.wfCommon (tbl2 .jsr) = true ∧ Spec.rootsDistinct (tbl2 .jsr) = true ∧ Spec.rootsClean (tbl2 .jsr) = true ∧
+    Spec.normalPath put2.path = true ∧ Spec.severalRootsMatch E0 (tbl2 .jsr) put2.path = false ∧
+    Cors.computeAllowedMethods E0 (tbl2 .jsr).services put2.path = some ["GET".toList, "POST".toList] ∧
+    (∀ s ∈ (tbl2 .jsr).services, ∀ r ∈ s.built, passesConds r put2 = true) ∧
+    Options.optionsOut E0 (tbl2 .jsr) opt2 = some out2 ∧
+    route E0 (tbl2 .jsr) put2 = .error 405 (some ["GET".toList, "POST".toList]) ∧
+    route E0 (tbl2 .curly) put2 = .error 405 (some ["GET".toList, "POST".toList]) ∧
+    route E0 (tbl2 .curly) { put2 with path := "/s/x/7".toList } = .selected 1 3 [("id".toList, "7".toList)] ∧
+    Spec.routable E0 (tbl2 .jsr) put2 "POST".toList = true ∧ Spec.routable E0 (tbl2 .jsr) put2 "PUT".toList = false := by
+  decide
+
+/-- `C17_405`, `C17_allowedMethods_mem` -/
+example (m : Str) : m ∈ ["GET".toList, "POST".toList] ↔ Spec.routable E0 (tbl2 .curly) put2 m = true :=
+  C17_405 E0 (tbl2 .curly) put2 _ (by decide) m
+example := C17_allowedMethods_mem "POST".toList ((tbl2 .jsr).services.flatMap Service.built) []
+/-- `C17_filter_options`, `C17_filter_other` -/
+example := C17_filter_options E0 (tbl2 .jsr) opt2 rfl out2 (by decide)
+example := C17_filter_other E0 (tbl2 .jsr) { opt2 with method := "GET".toList } (by decide)
+/-- `C17_options_lists_routable_jsr` / `_curly` (hypothesis `hr`: POST is routable at the URL) -/
+example : "POST".toList ∈ ["GET".toList, "POST".toList] :=
+  C17_options_lists_routable_jsr E0 (tbl2 .jsr) rfl put2.path _ (by decide) put2 rfl _ (by decide)
+example : "POST".toList ∈ ["GET".toList, "POST".toList] :=
+  C17_options_lists_routable_curly E0 (tbl2 .jsr) (by decide) (by decide) (by decide) put2.path (by decide) _ (by decide)
+    put2 rfl _ (by decide)
+/-- `C17_routable_agrees` -/
+example (m : Str) := C17_routable_agrees E0 (tbl2 .jsr) (by decide) (by decide) (by decide) put2 (by decide) m
+/-- `C17_options_jsr_partial`, `…'`, `C17_options_curly_partial`, `C17_filter_options_jsr_partial` -/
+example (m : Str) := C17_options_jsr_partial E0 (tbl2 .jsr) rfl put2.path ms2 (by decide) (by decide) put2 rfl (by decide) m
+example (m : Str) := C17_options_jsr_partial' E0 (tbl2 .jsr) rfl put2.path ms2 (by decide) (by decide) put2 rfl
+  (fun s hs r hr m' => by
+    have h : ∀ s ∈ (tbl2 .jsr).services, ∀ r ∈ s.built, passesConds r put2 = true := by decide
+    exact h s hs r hr) m
+example (m : Str) := C17_options_curly_partial E0 (tbl2 .jsr) (by decide) (by decide) (by decide) put2.path (by decide) ms2
+  (by decide) (by decide) put2 rfl (by decide) m
+example := C17_filter_options_jsr_partial E0 (tbl2 .jsr) rfl opt2 rfl out2 (by decide) (by decide) put2 rfl (by decide)
+
+/-- the equivalences are not trivially true: `Spec.routable` separates the methods at this URL, and
+    with the If-condition false POST stops being routable while it is still listed (`C17_conds_witness`) -/
+example :
+    ["GET", "POST", "PUT", "DELETE", "OPTIONS"].map (fun m => Spec.routable E0 (tbl2 .curly) put2 m.toList) =
+      [true, true, false, false, false] ∧
+    Spec.routable E0 (tbl2 .curly) { put2 with conds := [false] } "POST".toList = false := by
+  decide
+
+/-! `Spec.c17Holds` (Spec/Options.lean) is the predicate the driver evaluates on every REAL observation
+of C17, but no theorem of this file is stated with it (see the audit report).  What can be added
+without a new theorem: on the observation the MODEL amounts to at `/r/x/7` — five probed methods,
+the OPTIONS filter's two lists — the predicate holds under both routers, and it is falsified by
+wrong observations. -/
+
+def methods2 : List String := ["GET", "POST", "PUT", "DELETE", "OPTIONS"]
+
+/-- the observation the model amounts to: per probed method its status and (405) Allow list; the
+    filter lists `computeAllowedMethods`, runs no route function and leaves other methods alone
+    (`C17_filter_options`, `C17_filter_other`) -/
+def obs2 (k : RouterKind) : Spec.AllowObs :=
+  { probes := methods2.map (fun m =>
+      match route E0 (tbl2 k) { put2 with method := m.toList } with
+      | .error 405 (some al) => (m.toList, 405, some al)
+      | out => (m.toList, Spec.statusOf out, none))
+    optAllow := ms2, optACAM := ms2, optHandlerRan := false, othersUntouched := true }
+
+example :
+    (obs2 .curly).probes.map (·.2.1) = [200, 200, 405, 405, 405] ∧ (obs2 .jsr).probes.map (·.2.1) = [200, 200, 405, 405, 405] ∧
+    Spec.c17Holds (obs2 .curly) = true ∧ Spec.c17Holds (obs2 .jsr) = true ∧
+    -- the filter lists a method that is not routable / misses one that is / names one nobody probed
+    Spec.c17Holds { obs2 .curly with optAllow := ms2 ++ ["PUT".toList], optACAM := ms2 ++ ["PUT".toList] } = false ∧
+    Spec.c17Holds { obs2 .curly with optAllow := ["GET".toList], optACAM := ["GET".toList] } = false ∧
+    Spec.c17Holds { obs2 .curly with optAllow := ms2 ++ ["PATCH".toList], optACAM := ms2 ++ ["PATCH".toList] } = false ∧
+    -- Allow and Access-Control-Allow-Methods differ; a route function ran for OPTIONS; another method was touched
+    Spec.c17Holds { obs2 .curly with optACAM := ["GET".toList] } = false ∧
+    Spec.c17Holds { obs2 .curly with optHandlerRan := true } = false ∧
+    Spec.c17Holds { obs2 .curly with othersUntouched := false } = false ∧
+    -- a 405 whose Allow list misses POST, lists DELETE, or is absent
+    Spec.c17Holds { obs2 .curly with probes := (obs2 .curly).probes.map (fun p =>
+      if p.1 = "PUT".toList then (p.1, 405, some ["GET".toList]) else p) } = false ∧
+    Spec.c17Holds { obs2 .curly with probes := (obs2 .curly).probes.map (fun p =>
+      if p.1 = "PUT".toList then (p.1, 405, some (ms2 ++ ["DELETE".toList])) else p) } = false ∧
+    Spec.c17Holds { obs2 .curly with probes := (obs2 .curly).probes.map (fun p =>
+      if p.1 = "PUT".toList then (p.1, 405, none) else p) } = false := by
+  decide
+
+end Restful.C17Audit
